@@ -247,7 +247,11 @@ func Apply(dialect string, m *gm.Schema, e EditRef) ([]string, error) {
 	}
 	switch e.Kind {
 	case "add-column":
-		t.Cols = append(t.Cols, gm.Col{Name: e.Obj, Type: IntType(dialect), Null: true})
+		ct := IntType(dialect)
+		if e.Arg != "" {
+			ct = e.Arg // a requested type
+		}
+		t.Cols = append(t.Cols, gm.Col{Name: e.Obj, Type: ct, Null: true})
 		return []string{p + "AddColumn(" + e.Obj + ")"}, nil
 	case "drop-column":
 		for i := range t.Cols {
